@@ -41,11 +41,16 @@ JudgeVerdict(o, v, tag) ==
     IN IF v \notin {"ok", "err"} THEN Say(o.tid, "viol:NoVerdict" \o tag)
        ELSE IF IsConcrete(c.call)
        THEN (IF RefConcreteAgrees(c, acc) THEN TRUE ELSE Say(o.tid, "viol:ConcreteAgrees" \o tag))
+       \* a named deviation excuses an observation only if the real verdict is exactly the one the Impl model
+       \* (which reproduces the deviating mechanism) predicts for the case; any other disagreement with the
+       \* property inside a deviating region is a violation of its own
        ELSE /\ (IF RefAcceptSound(c, acc, MaxExp) THEN TRUE
-                ELSE IF Dev_KeywordHiddenByStarKwargs(c) THEN Say(o.tid, "dev:keyword-hidden-by-star-kwargs")
+                ELSE IF Dev_KeywordHiddenByStarKwargs(c) /\ ImplAccepted(c) = acc
+                     THEN Say(o.tid, "dev:keyword-hidden-by-star-kwargs")
                 ELSE Say(o.tid, "viol:AcceptSound" \o tag))
             /\ (IF RefRejectSound(c, acc, MaxExp) THEN TRUE
-                ELSE IF Dev_StarArgsThenKeyword(c) THEN Say(o.tid, "dev:star-args-then-keyword")
+                ELSE IF Dev_StarArgsThenKeyword(c) /\ ImplAccepted(c) = acc
+                     THEN Say(o.tid, "dev:star-args-then-keyword")
                 ELSE Say(o.tid, "viol:RejectSound" \o tag))
 
 \* ---- the implementation model against the real binder
